@@ -12,6 +12,7 @@
 import collections
 import gc
 import io
+import os
 import sys
 
 from ..runner import BaseCheck
@@ -130,6 +131,8 @@ class Check(BaseCheck):
                    'returning a host list unchanged is aliasing, not mutation; growth during the first two passes is warm-up',
                    '"unbounded repetition counts" is restated as: no growth in every one of R passes (R = 8 quick / 30 thorough) over a corpus of K formulas')
 
+    NO_AMBIENT = ('order',)      # its shards are compared with each other: they differ in evaluation order and hash seed only
+
     def plan(self, tier, seed):
         q = tier == 'quick'
         specs = [{'campaign': 'sentinels'}]
@@ -137,7 +140,8 @@ class Check(BaseCheck):
             specs.append({'campaign': 'histories', 'seed': seed, 'n': 80 if q else 2500, 'i': i, 'maxlen': 60 if i % 2 else 200})
             specs.append({'campaign': 'mutation', 'seed': seed, 'i': i, 'k': 16})
         for k in range(4 if q else 8):
-            specs.append({'campaign': 'order', 'seed': seed, 'perm': k, 'per_function': 14 if q else 60})
+            # ... and under different string-hash seeds: what a set or dict of names happens to yield first is not part of the formula
+            specs.append({'campaign': 'order', 'seed': seed, 'perm': k, 'per_function': 14 if q else 60, 'hashseed': [0, 1, 4242, 31337, 7, 99, 123456789, 2][k % 8]})
         for i in range(4):
             specs.append({'campaign': 'retention_each', 'i': i, 'k': 4, 'N': 150 if q else 600})
         for i in range(8):
@@ -325,7 +329,7 @@ class Check(BaseCheck):
         lists = {'v_a': [3, 1, 2, 2.5, -1], 'v_b': [[3, 1], [2, 4]], 'v_c': shared, 'v_d': shared, 'v_e': ['b', 'a', 'c'], 'v_f': [1, [2, [3, [4]]]], 'v_g': [], 'v_h': [None, 0, '', False],
                  'v_i': [0.5], 'v_j': [2, 1, 3, 1, 2], 'v_k': ['x', 1, None, True, 2.5], 'v_s': 'text', 'v_n': 2, 'v_t': True,
                  'v_m': ['b', None, 'a', None], 'v_o': [3, None, 1], 'v_p': [[2, None], [None, 1]], 'v_q': ['2', '1', 'x'], 'v_r': [True, False, None],
-                 'v_u': [(3, 1), (2, 4)], 'v_v': ([3, 1], [2, 4]), 'v_w': (3, 1, 2)}
+                 'v_u': [(3, 1), (2, 4)], 'v_v': ([3, 1], [2, 4]), 'v_w': (3, 1, 2), 'v_x1': [[7]]}
         for n, v in lists.items():
             p.set_variable(n, v)
         snap = {n: (canon(v), rows_of(v)) for n, v in lists.items()}
@@ -343,7 +347,10 @@ class Check(BaseCheck):
                 forms.append('%s(%s)' % (fn, ','.join(args)))
         if spec['i'] == 0:
             for op in ('+', '-', '*', '/', '&', '=', '<', '>=', '<>'):
-                for l, r in (('v_a', 'v_n'), ('v_n', 'v_a'), ('v_a', 'v_a'), ('v_b', 'v_b'), ('v_c', 'v_d'), ('v_a', 'v_j'), ('A1:B2', 'v_n'), ('GIVE()', 'v_n'), ('v_k', 'v_n'), ('v_f', 'v_n')):
+                for l, r in (('v_a', 'v_n'), ('v_n', 'v_a'), ('v_a', 'v_a'), ('v_b', 'v_b'), ('v_c', 'v_d'), ('v_a', 'v_j'), ('A1:B2', 'v_n'), ('GIVE()', 'v_n'), ('v_k', 'v_n'), ('v_f', 'v_n'),
+                             # operands of every length against each other: one element (broadcast), empty, nested, tuples
+                             ('v_i', 'v_a'), ('v_a', 'v_i'), ('v_i', 'v_i'), ('v_i', 'v_b'), ('v_b', 'v_i'), ('v_g', 'v_a'), ('v_a', 'v_g'), ('v_w', 'v_a'), ('v_i', 'v_w'), ('v_u', 'v_i'),
+                             ('v_i', 'A1:B2'), ('A1:B2', 'v_i'), ('v_i', 'GIVE()'), ('v_i', '{1,2,3}'), ('{5}', 'v_a'), ('v_x1', 'v_a'), ('v_a', 'v_x1'), ('v_x1', 'v_b')):
                     forms.append('%s%s%s' % (l, op, r))
             forms += ['-v_a', '{v_a,v_b}', '(v_a)', 'v_a', 'IF(TRUE,v_a,v_b)', 'INDEX(v_a,0,0)', 'INDEX(v_b,1)', 'CHOOSE(1,v_a)']
         for f in forms:
@@ -422,6 +429,7 @@ class Check(BaseCheck):
             rec.case()
         rec.series['order.%d' % spec['perm']] = {'outcomes': res, 'formulas': len(fs)}
         rec.series['order.seed'] = spec['seed']
+        rec.cov('order_hash_seeds', os.environ.get('PYTHONHASHSEED'))
         rec.series['order.per_function'] = spec['per_function']
         rec.count('order_evaluations', len(fs))
         rec.sample({'formulas_in_list': len(fs), 'permutation': spec['perm'], 'first': [fs[i] for i in idx[:4]]})
